@@ -146,6 +146,10 @@ func (t *Term) write(sb *strings.Builder) {
 			sb.WriteString(")")
 		}
 		sb.WriteString(")")
+	case t.Op == "constarr":
+		fmt.Fprintf(sb, "((as const %s) ", t.Sort.Name)
+		t.Args[0].write(sb)
+		sb.WriteString(")")
 	default:
 		if len(t.Args) == 0 {
 			sb.WriteString(smtName(t.Op))
